@@ -25,6 +25,16 @@ def _run(ctx):
     res = lib.vh(ctx, "delta", beh, props=[pid],
                  opts={"all_dicts": "1"} if (ctx.thorough or ctx.replay) else None, cacheable=True)
     r = res["per_property"][pid]
+    if not ctx.replay:
+        # several ASPA customers: change sets with more than one ASPA item at either end of the customer order
+        gen3 = lib.tlc(ctx, "gen_aspa", "Gen_Delta.tla", "Gen_Delta_aspa.cfg", workers=4, timeout=1500, count=False)
+        beh3 = ctx.path("behaviours_aspa.ndjson")
+        n3 = lib.extract_replays(gen3["out"], beh3)
+        if n3 == 0:
+            raise lib.ToolError("no behaviours exported by Gen_Delta_aspa.cfg")
+        res3 = lib.vh(ctx, "delta", beh3, props=[pid], out_name="delta_aspa", cacheable=True)
+        r = lib.merge_results(r, res3["per_property"][pid])
+        ctx.extra["behaviours_exported_aspa"] = n3
     if pid == "C12" and not ctx.replay:
         # longer histories: merged deltas are merged again (hidden ASPA bookkeeping)
         gen2 = lib.tlc(ctx, "genseq", "Gen_DeltaSeq.tla", "Gen_DeltaSeq.cfg", workers=4, timeout=2400, count=False)
